@@ -75,6 +75,11 @@ func exploreRule(c *Ctx, what string) {
 		ruleOptsForward(c, r, all, 0)
 	case "copyalias":
 		ruleCopyAlias(c, r)
+	case "node":
+		ruleWriteGated(c, r)
+		ruleWildcardOpt(c, r)
+		ruleDeletePrune(c, r)
+		ruleReflectString(c, r, all)
 	case "byterunerule":
 		ruleByteRune(c, r, all)
 	}
